@@ -3,7 +3,7 @@ C13 driver: parses the case lines that harness/c13/c13.c executes against the re
 (`model` mode) or the specification oracle on an implementation trace (`judge` mode).
 
 Case lines:   port telnet|ascii|binary|console / iflag single / send <hex> / read / chunk <hex> / extract /
-              drain / finish / line <hex>          (`-` is the empty byte string)
+              drain / finish / line <hex> / getchar [noecho] / inputto [noecho] / serve          (`-` is the empty byte string)
 Trace lines:  ask n / rx <hex> / wouldblock / st s e state sbpos flags / cmd <hex> / nocmd / input <hex> /
               cb ttype <hex> / cb subopt <hex> / cb naws w h / tx <hex> / cl <hex> / closed / crash ... / sanitizer ...
 -/
@@ -55,6 +55,7 @@ def render : Ev → String
   | .cberr => "err"
   | .closed => "closed"
   | .crash why => s!"crash {why}"
+  | .setcall ok => s!"setcall {if ok then 1 else 0}"
 
 def parseEv (line : String) : Option Ev :=
   match NV.Proto.toks line with
@@ -71,6 +72,8 @@ def parseEv (line : String) : Option Ev :=
   | ["tx", h] => (unhex h).map .tx
   | ["cl", h] => (unhex h).map .cl
   | ["closed"] => some .closed
+  | ["setcall", "1"] => some (.setcall true)
+  | ["setcall", "0"] => some (.setcall false)
   | ["err"] => some .cberr
   | ["err", "C13", "scripted", "error", "in", "callback", k] => k.toNat?.map .errmsg
   | _ => none
@@ -93,6 +96,12 @@ def parseOp (line : String) : Option Op :=
   | ["drain"] => some .drain
   | ["finish"] => some .finish
   | ["line", h] => (unhex h).map .line
+  | ["wpipe", h] => (unhex h).map .wpipe
+  | ["getchar"] => some (.getchar false)
+  | ["getchar", "noecho"] => some (.getchar true)
+  | ["inputto"] => some (.inputto false)
+  | ["inputto", "noecho"] => some (.inputto true)
+  | ["serve"] => some .serve
   | _ => none
 
 /-- `cb <k> err|dest` lines -/
